@@ -15,6 +15,7 @@ import (
 	"github.com/pion/dtls/v3/pkg/crypto/prf"
 	"github.com/pion/dtls/v3/pkg/protocol"
 	"github.com/pion/dtls/v3/pkg/protocol/alert"
+	"github.com/pion/dtls/v3/pkg/protocol/extension"
 	extension13 "github.com/pion/dtls/v3/pkg/protocol/extension/dtls13"
 	"github.com/pion/dtls/v3/pkg/protocol/handshake"
 	"github.com/pion/dtls/v3/pkg/protocol/recordlayer"
@@ -279,6 +280,18 @@ func handleFlight3ProtectedHandshake(
 				}
 
 				return &flightParseFailure{alert: dtlsAlert, err: err}
+			}
+			flightCtx.state.NegotiatedProtocol = ""
+			for _, value := range message.Extensions {
+				selection, ok := value.(*extension.ALPNSelection)
+				if !ok {
+					continue
+				}
+				// The selection must be one of the protocols this client offered.
+				if !slices.Contains(flightCtx.cfg.SupportedProtocols, selection.Protocol) {
+					return newFlightParseFailure(alert.IllegalParameter, dtlserrors.ErrALPNNoAppProto)
+				}
+				flightCtx.state.NegotiatedProtocol = selection.Protocol
 			}
 		case *handshake.MessageCertificateRequest13:
 			flightCtx.state.RemoteCertificateRequest = message
